@@ -244,6 +244,7 @@ class PrecipitateModel (PrecipitateBase):
                 self.PSDXalpha[p] = np.zeros((self.PBM[p].bins + 1,1))
                 self.PSDXbeta[p] = np.zeros((self.PBM[p].bins + 1,1))
 
+        self._lookupXEq = (xEqAlpha, xEqBeta)
         return xEqAlpha, xEqBeta
     
     def _setupAspectRatio(self):
@@ -546,7 +547,8 @@ class PrecipitateModel (PrecipitateBase):
         if np.abs(self.dTemp) > self.constraints.maxTempChange:
             xEqAlpha, xEqBeta = self._createLookupBinary(T)
         else:
-            xEqAlpha, xEqBeta = np.array([self.pData.xEqAlpha[self.pData.n]]), np.array([self.pData.xEqBeta[self.pData.n]])
+            #Planar equilibrium compositions that belong to the current lookup table
+            xEqAlpha, xEqBeta = np.array(self._lookupXEq[0]), np.array(self._lookupXEq[1])
         Y.xEqAlpha = xEqAlpha
         Y.xEqBeta = xEqBeta
         
